@@ -14,7 +14,7 @@ export GOFLAGS=-mod=mod GOPROXY=off GOSUMDB=off GOTOOLCHAIN=local
 rm -rf "$BASE"; mkdir -p "$BASE/out"; git -C /repo worktree prune
 git -C /repo worktree add -q --detach "$BASE/repo" HEAD || exit 2
 trap 'git -C /repo worktree remove --force "$BASE/repo" 2>/dev/null; rm -rf "$BASE"' EXIT
-if ! git -C "$BASE/repo" apply "$PATCH"; then echo "EQ $NAME: STALE (patch does not apply)"; exit 2; fi
+if ! git -C "$BASE/repo" apply "$PATCH" 2>/dev/null && ! git -C "$BASE/repo" apply --3way "$PATCH" >/dev/null 2>&1; then echo "EQ $NAME: STALE (patch does not apply)"; exit 2; fi
 if ! (cd "$BASE/repo" && go build ./... && go vet -tags verif ./json ./ubjson ./cborl ./gotype >/dev/null 2>&1 || true; cd "$BASE/repo" && go test -count=1 ./... >"$BASE/test.log" 2>&1); then
   echo "EQ $NAME: repository tests fail with the patch"; tail -5 "$BASE/test.log"; exit 2
 fi
